@@ -219,7 +219,7 @@ PROPS.update({
         "engine": "ktmc-sched",
         "technique": "stateless controlled-scheduler exploration of the s2m / m2s worker interleavings plus exhaustive configuration enumeration",
         "needs": ["harness", "cli"],
-        "parts": [ktmc("C10sched"), ktmc("C10cfg"), lambda tier: __import__("hist").c_env_cpus(tier, ['s2m', 'm2s']), lambda tier: __import__("hist").c_sink_fifo(tier, ['s2m', 'm2s']), lambda tier: __import__("hist").c_source_fifo(tier, ['s2m', 'm2s', 's2m-w0'])],
+        "parts": [ktmc("C10sched"), ktmc("C10many"), ktmc("C10cfg"), lambda tier: __import__("hist").c_env_cpus(tier, ['s2m', 'm2s']), lambda tier: __import__("hist").c_sink_fifo(tier, ['s2m', 'm2s']), lambda tier: __import__("hist").c_source_fifo(tier, ['s2m', 'm2s', 's2m-w0'])],
         "rule": "schedules: every interleaving (N=2 unbounded where feasible, N=3 preemption-bounded) of seq_to_min and "
                 "bin_sequences workers over 2-3 records sharing minimisers (m=2, w=0 and w=3); oracle per schedule: "
                 "s2m = one line per record with the model's runs (multiset of lines), m2s = exact inversion of the "
